@@ -734,10 +734,12 @@ def initialize_X_and_G(
             f"The size of correction vector ({n}) does"
             f" not match the size of x ({x.size})!"
         )
-    # restore the past X and G
+    # restore the past X and G: sk and yk are stored oldest first, so the differences
+    # are summed from the newest one backwards and the points put back in
+    # chronological order
     for x, g in zip(
-        checkpoint.x - np.cumsum(checkpoint.hess_inv.sk, axis=0),
-        checkpoint.jac - np.cumsum(checkpoint.hess_inv.yk, axis=0),
+        (checkpoint.x - np.cumsum(checkpoint.hess_inv.sk[::-1], axis=0))[::-1],
+        (checkpoint.jac - np.cumsum(checkpoint.hess_inv.yk[::-1], axis=0))[::-1],
     ):
         if len(X) > maxcor:
             X.popleft()
